@@ -7,6 +7,7 @@
 //!
 //! exit codes: 0 held, 1 violation (prints `VIOLATION property=<id> replay=<path>`), 2 harness error
 
+mod bump;
 mod disk;
 mod gen;
 mod model;
@@ -25,6 +26,9 @@ mod serde_rt;
 mod treemacro;
 mod util;
 mod world;
+
+#[global_allocator]
+static GLOBAL: bump::Bump = bump::Bump;
 
 use ops::Replay;
 use run::{BatchOpts, Found};
